@@ -23,6 +23,7 @@ func init() {
 			runOpenOwned(p, r)
 			runCleanupCalled(p, r)
 			runReplaceCloses(p, r, "REPLACE-CLOSES")
+			runStableRecords(p, r, "OWN-PAIR")
 			runOwnPair(p, r, "OWN-PAIR")
 			runOwnTableShared(p, r, "OWN-PAIR")
 			runJoined(p, r, "JOINED")
@@ -56,6 +57,7 @@ func init() {
 			runDupSelf(p, r)
 			runOpenOwnedRedir(p, r, "OPEN-OWNED")
 			runReplaceCloses(p, r, "REPLACE-CLOSES")
+			runStableRecords(p, r, "OWN-PAIR")
 			runOwnPair(p, r, "OWN-PAIR")
 			runOwnTableShared(p, r, "OWN-PAIR")
 			runSendErrNonNil(p, r)
@@ -67,7 +69,9 @@ func init() {
 		Trusted:   trustedBase,
 		Controls: []core.Control{
 			{Name: "child-file-table-built-with-append", Rule: "FD-POSITIONAL", File: "pkg/eval/external_cmd.go", Old: "\tfiles := make([]*os.File, len(fm.ports))\n\tfor i, port := range fm.ports {\n\t\tif port != nil {\n\t\t\tfiles[i] = port.File", New: "\tfiles := make([]*os.File, 0, len(fm.ports))\n\tfor _, port := range fm.ports {\n\t\tif port != nil {\n\t\t\tfiles = append(files, port.File)", Fire: true, Want: "one file slot per port", Patterns: []string{"./pkg/eval"}},
-			{Name: "revert-fix-shared-port-closed-on-re-redirection", Rule: "OWN-PAIR", File: "pkg/eval/compile_effect.go", Old: "\t\t\tfor i, port := range fm.ports {\n\t\t\t\tif i != dst && port == *dstPort {\n\t\t\t\t\t*growAccess(fops, i) = *dstFop\n\t\t\t\t\t*dstFop = formOwnedPort{File: false, Chan: false}\n\t\t\t\t\treturn\n\t\t\t\t}\n\t\t\t}\n", New: "", Fire: true, Want: "shares it", Patterns: []string{"./pkg/eval"}},
+			{Name: "revert-fix-shared-port-closed-on-re-redirection", Rule: "OWN-PAIR", File: "pkg/eval/compile_effect.go", Old: "\t\t\tfor i, port := range fm.ports {\n\t\t\t\tif i != dst && port == *dstPort {\n\t\t\t\t\t// Only an owner has something to hand over; if this fd\n\t\t\t\t\t// merely shares the port, the record of the fd that owns\n\t\t\t\t\t// it must stay as it is.\n\t\t\t\t\tif dstFop.File || dstFop.Chan {\n\t\t\t\t\t\t*growAccess(fops, i) = *dstFop\n\t\t\t\t\t\t*dstFop = formOwnedPort{File: false, Chan: false}\n\t\t\t\t\t}\n\t\t\t\t\treturn\n\t\t\t\t}\n\t\t\t}\n", New: "", Fire: true, Want: "shares it", Patterns: []string{"./pkg/eval"}},
+			{Name: "ownership-table-not-grown-before-taking-a-record", Rule: "OWN-PAIR", File: "pkg/eval/compile_effect.go", Old: "\tfor len(*fops) < len(fm.ports) {\n\t\t*fops = append(*fops, formOwnedPort{})\n\t}\n", New: "", Fire: true, Want: "stays valid", Patterns: []string{"./pkg/eval"}},
+			{Name: "revert-fix-hand-over-without-owning", Rule: "OWN-PAIR", File: "pkg/eval/compile_effect.go", Old: "\t\t\t\t\tif dstFop.File || dstFop.Chan {\n\t\t\t\t\t\t*growAccess(fops, i) = *dstFop\n\t\t\t\t\t\t*dstFop = formOwnedPort{File: false, Chan: false}\n\t\t\t\t\t}\n", New: "\t\t\t\t\t*growAccess(fops, i) = *dstFop\n\t\t\t\t\t*dstFop = formOwnedPort{File: false, Chan: false}\n", Fire: true, Want: "owns anything", Patterns: []string{"./pkg/eval"}},
 			{Name: "revert-fix-put-panics-on-channel-closed-by-owner", Rule: "PORT-TOTAL", File: "pkg/eval/port.go", Old: "\tdefer func() {\n\t\tif recover() != nil {\n\t\t\terr = errs.ReaderGone{}\n\t\t}\n\t}()\n", New: "", Fire: true, Want: "survives", Patterns: []string{"./pkg/eval"}},
 			{Name: "dup-of-closed-port-is-invalid-fd", Rule: "FD-VALID", File: "pkg/eval/compile_effect.go", Old: "case src < 0 || src >= len(fm.ports) || fm.ports[src] == nil:", New: "case src < 0 || src >= len(fm.ports) || fm.ports[src] == nil || fm.ports[src].File == nil:", Fire: true, Want: "invalid fd"},
 			{Name: "benign-src-check-in-helper", Rule: "FD-VALID", File: "pkg/eval/compile_effect.go", Old: "case src < 0 || src >= len(fm.ports) || fm.ports[src] == nil:", New: "case !hasPort(fm.ports, src):", Edits: [][2]string{{"type InvalidFD struct{ FD int }\n", "type InvalidFD struct{ FD int }\n\nfunc hasPort(ports []*Port, i int) bool { return i >= 0 && i < len(ports) && ports[i] != nil }\n"}}, Fire: false},
